@@ -56,6 +56,10 @@ func init() {
 	register("spork", func(c *Ctx) {
 		for i := 0; i < c.N; i++ {
 			sporkScenario(c, i)
+			if i%3 == 0 {
+				// the family "sporks defined in the genesis configuration" (s_spork_genesis.go), its four shapes in rotation
+				sporkGenesisScenario(c, i, i/3+int(c.Seed%4))
+			}
 		}
 	})
 }
